@@ -174,7 +174,9 @@ def cfg_eq(a, b):
 
 def make_harness(n, fix=None):
   def h(e):
-    rm = recipe_manager.RecipeManager()
+    # through the public facade (Quantizer), whose RecipeManager is inspected
+    q1 = quantizer_lib.Quantizer(bytearray(b''), None)
+    rm = q1._recipe_manager
     applied = 0
     for i in range(n):
       toks = [SymTok.fresh(f'u{i}_regex', REGEXES),
@@ -193,20 +195,22 @@ def make_harness(n, fix=None):
       if applied:
         # an export between two updates (what quantize(), need_calibration
         # and save() do) must not influence what is exported later
-        rm.get_quantization_recipe()
+        q1.get_quantization_recipe()
       try:
-        rm.add_quantization_config(regex, op, cfg, alg)
+        q1.update_quantization_recipe(regex, op, cfg, alg)
         applied += 1
       except ValueError:
         pass  # refused at update time: not part of the recipe
     if not applied:
       return
-    rec = rm.get_quantization_recipe()
+    rec = q1.get_quantization_recipe()
     e.reach('exported')
     rec_j = J(rec)
-    rm2 = recipe_manager.RecipeManager()
+    q2 = quantizer_lib.Quantizer(bytearray(b''), None)
+    rm2 = q2._recipe_manager
     try:
-      rm2.load_quantization_recipe(copy.deepcopy(rec_j))
+      q2.load_quantization_recipe(copy.deepcopy(rec_j))
+      rm2 = q2._recipe_manager
     except Inconclusive:
       raise
     except Exception as ex:  # pylint: disable=broad-except
@@ -214,7 +218,7 @@ def make_harness(n, fix=None):
               info=[f'{type(ex).__name__}: {str(ex)[:100]}',
                     _concrete_preview(rec_j)])
       return
-    rec2_j = J(rm2.get_quantization_recipe())
+    rec2_j = J(q2.get_quantization_recipe())
     e.check('C12.reloaded_recipe_equals_saved_recipe',
             eq_formula(rec2_j, rec_j),
             info=[_concrete_preview(rec_j), _concrete_preview(rec2_j)])
